@@ -86,6 +86,16 @@ func c17ConnJudge(cfg histCfg, o *histObs) []finding {
 	if r.Panic != "" {
 		return []finding{{"C17/conn/" + mode + "/panic", r.Panic}}
 	}
+	// when the last command itself was disturbed, its result is only comparable
+	// if every disturbance is one the library recovers from by retrying
+	// (undecodable or temporary replies followed by the honest one)
+	for k, a := range r.Answers {
+		cl := r.Classes[k]
+		transparent := a == "ok" || a == "ok(horizon)" || cl == clsUndecodable || cl == clsTemporary
+		if !transparent {
+			return nil
+		}
+	}
 	if r.ErrNil != v.ErrNil || r.Code != v.Code || r.Rsp != v.Rsp {
 		var hist []string
 		for p := 0; p <= last; p++ {
@@ -161,7 +171,7 @@ func runC17(r *rep.R) {
 				if inSess {
 					ops = append(ops, opClose)
 				}
-				cfg := histCfg{Suite: ref.Suite{Auth: 1, Integ: 1, Conf: 1}, InSession: inSess, Ops: ops, Horizon: 2, Alphabet: "retry", MenuOps: []int{0}}
+				cfg := histCfg{Suite: ref.Suite{Auth: 1, Integ: 1, Conf: 1}, InSession: inSess, Ops: ops, Horizon: 2, Alphabet: "retry", MenuOps: []int{0, 1}}
 				histExploreWith(r, "C17", cfg, 1, &idx, c17ConnJudge)
 			}
 		}
